@@ -133,6 +133,43 @@ def fe_scenarios(ctx, prefix="c01"):
     return [one("%s-fe%03d" % (prefix, i + 1), rnd, h + ["ok"], not ctx.quick and i % 7 == 0, fe=True) for i, h in enumerate(hist)]
 
 
+def fe_stalled(sid, size, second):
+    """the connection of caller 1 stalls when the front end writes the answer (the peer is not reading); meanwhile
+    caller 2 is served in full (the emulator is free again as soon as invocation 1 is over); when caller 1's
+    connection continues it must get the bytes of its own answer"""
+    s = Scn(sid, ext=[], timeout_ms=3000, frontEnd=True, opWaitMs=8000)
+    s.meta(family="frontend", kind="stalled-caller", size=size, second=second)
+    s.hold("drv.feWrite:1")
+    a = s.invoke(caller=1, size=7, seed=31)
+    s.await_exec(kind="rt")
+    t = s.call("rt", "next", async_=True)
+    s.wait(t)
+    s.call("rt", "response", id="current", size=size, seed=32)
+    tags = {"rt": s.poll("rt")}
+    s.until_held("drv.feWrite:1")
+    b = s.invoke(caller=2, size=9, seed=33)
+    s.wait(tags["rt"])
+    if second == "error":
+        s.call("rt", "error", id="current", size=size, seed=34, errType="Function.Second")
+    else:
+        s.call("rt", "response", id="current", size=size, seed=35)
+    tags["rt"] = s.poll("rt")
+    s.wait(b)
+    s.release("drv.feWrite:1")
+    s.wait(a)
+    s.round(tags, {})
+    return s.done()
+
+
+def fe_stalled_scenarios(ctx):
+    sizes = [64, 70000] if ctx.quick else [1, 64, 4096, 70000, 3 * 1024 * 1024]
+    out = []
+    for i, size in enumerate(sizes):
+        for second in ("response", "error"):
+            out.append(fe_stalled("c01-fe-stall%02d" % (len(out) + 1), size, second))
+    return out
+
+
 def scenarios(ctx):
     rnd = random.Random(ctx.seed * 31337 + 1)
     out = []
@@ -161,7 +198,7 @@ def run(ctx):
     sc.run_families(ctx, scenarios(ctx), "roundtrip")
     # the same histories through the real HTTP front end (cmd/aws-lambda-rie InvokeHandler), validated against
     # Trace_Rapid (core events) and Trace_FrontEnd (the handler's own steps and its status mapping)
-    sc.run_families(ctx, fe_scenarios(ctx), "frontend")
+    sc.run_families(ctx, fe_scenarios(ctx) + fe_stalled_scenarios(ctx), "frontend")
     ctx.coverage["exhaustive"] = False
 
 
